@@ -263,6 +263,10 @@ class Exec(Engine):
             elif isinstance(e.op, ast.USub) and v.t in (INT, BOOL): out.append((s, mk_int(-coerce(v, INT).z)))
             elif isinstance(e.op, ast.UAdd) and v.t == INT: out.append((s, v))
             elif isinstance(e.op, ast.Invert) and v.t == INT: out.append((s, mk_int(-v.z - 1)))
+            elif isinstance(v.t, OpaqueT) and v.t.n == 'Dyn':
+                # abstract value: the result is an (uninterpreted) function of the operand
+                from . import dyn
+                f = z3.Function('DYN_UNARY_' + type(e.op).__name__, dyn.D, dyn.D); out.append((s, V(v.t, f(v.z))))
             else: raise Unsupported('unary %s on %s' % (type(e.op).__name__, v.t))
         return out
 
